@@ -100,7 +100,7 @@ func drawBody(t *Tape, maxLine int, big bool) []byte {
 
 func genC01(t *Tape, tier string) *Scenario {
 	sc := &Scenario{Prop: "C01"}
-	sc.Srv = drawCfg(t, cfgOpts{})
+	sc.Srv = drawCfg(t, cfgOpts{allowTLS: true})
 	sc.Srv.MaxRcpt = 0
 	if sc.Srv.LMTP && t.Bool() {
 		sc.BE.Flavor = beLMTP
